@@ -16,6 +16,9 @@
 //   - functions named in Target.Init (constructors, one-time initialisation) are "init-only":
 //     accesses there are not concurrent with anything.
 //   - &recv.f passed to sync/atomic functions is an atomic access.
+//   - `x := recv.f` where f has MAP type makes x an alias of the shared map: every later use of x in
+//     the method (range, index, len, passing it on) is a read of f, `x[k] = v` / delete(x, k) a write,
+//     under the lockset held at THAT point (copying the reference under a lock protects nothing).
 package lockfacts
 
 import (
@@ -26,6 +29,7 @@ import (
 	"os"
 	"path/filepath"
 	"sort"
+	"strconv"
 	"strings"
 )
 
@@ -51,10 +55,45 @@ type Access struct {
 	Locks  []Lock `json:"locks"`
 	Atomic bool   `json:"atomic"`
 	Init   bool   `json:"init"`
+	Region int    `json:"region"` // critical section number inside Func (0 = no lock held); distinct Lock() calls open distinct regions
+	Via    string `json:"via"`    // non-empty: the access happens inside this callee (a method of the same receiver called from Func)
 	Pos    string `json:"pos"`
 }
 
-type lockset map[string]bool // name -> exclusive
+type lockset map[string]bool // name -> exclusive; the key "\x00r<n>" marks the critical-section number n
+
+const regionPrefix = "\x00r"
+
+func (l lockset) region() int {
+	for k := range l {
+		if strings.HasPrefix(k, regionPrefix) {
+			n, _ := strconv.Atoi(k[len(regionPrefix):])
+			return n
+		}
+	}
+	return 0
+}
+
+func (l lockset) setRegion(n int) {
+	for k := range l {
+		if strings.HasPrefix(k, regionPrefix) {
+			delete(l, k)
+		}
+	}
+	if n > 0 {
+		l[regionPrefix+strconv.Itoa(n)] = true
+	}
+}
+
+func (l lockset) nLocks() int {
+	n := 0
+	for k := range l {
+		if !strings.HasPrefix(k, "\x00") {
+			n++
+		}
+	}
+	return n
+}
 
 func (l lockset) clone() lockset {
 	c := lockset{}
@@ -77,6 +116,9 @@ func intersect(a, b lockset) lockset {
 func (l lockset) list() []Lock {
 	out := []Lock{}
 	for k, v := range l {
+		if strings.HasPrefix(k, "\x00") {
+			continue
+		}
 		out = append(out, Lock{k, v})
 	}
 	sort.Slice(out, func(i, j int) bool { return out[i].Name < out[j].Name })
@@ -106,12 +148,15 @@ type methodInfo struct {
 }
 
 type walker struct {
-	recv     string
-	fields   map[string]bool
-	mutexes  map[string]bool
-	m        *methodInfo
-	detached int
-	subs     *[]*methodInfo // closures that outlive / run apart from the method: walked as pseudo-methods
+	recv       string
+	fields     map[string]bool
+	mutexes    map[string]bool
+	m          *methodInfo
+	detached   int
+	subs       *[]*methodInfo // closures that outlive / run apart from the method: walked as pseudo-methods
+	mapFlds    map[string]bool
+	nextRegion int
+	alias      map[string]string // local variable -> map-typed field it was assigned from (`x := recv.f`)
 }
 
 // closure walks a function literal that escapes the method (returned, or started with `go`) as a
@@ -221,13 +266,24 @@ func (w *walker) expr(e ast.Expr, ls lockset) {
 		if mu, op, ok := w.lockOp(t); ok {
 			switch op {
 			case "Lock", "TryLock":
+				if ls.nLocks() == 0 {
+					w.nextRegion++
+					ls.setRegion(w.nextRegion)
+				}
 				ls[mu] = true
 			case "RLock":
+				if ls.nLocks() == 0 {
+					w.nextRegion++
+					ls.setRegion(w.nextRegion)
+				}
 				if _, held := ls[mu]; !held {
 					ls[mu] = false
 				}
 			case "Unlock", "RUnlock":
 				delete(ls, mu)
+				if ls.nLocks() == 0 {
+					ls.setRegion(0)
+				}
 			}
 			return
 		}
@@ -254,6 +310,10 @@ func (w *walker) expr(e ast.Expr, ls lockset) {
 		if id, ok := t.Fun.(*ast.Ident); ok && (id.Name == "delete" || id.Name == "clear") && len(t.Args) > 0 {
 			if f, ok := w.recvField(t.Args[0]); ok {
 				w.record(f, true, false, ls, t.Pos())
+			} else if aid, ok := t.Args[0].(*ast.Ident); ok {
+				if f, ok := w.alias[aid.Name]; ok {
+					w.record(f, true, false, ls, t.Pos())
+				}
 			}
 		}
 		if fl, ok := t.Fun.(*ast.FuncLit); ok {
@@ -272,6 +332,10 @@ func (w *walker) expr(e ast.Expr, ls lockset) {
 		w.expr(t.X, ls)
 	case *ast.FuncLit:
 		w.block(t.Body, ls.clone())
+	case *ast.Ident:
+		if f, ok := w.alias[t.Name]; ok {
+			w.record(f, false, false, ls, t.Pos())
+		}
 	case *ast.BinaryExpr:
 		w.expr(t.X, ls)
 		w.expr(t.Y, ls)
@@ -311,6 +375,13 @@ func (w *walker) lhs(e ast.Expr, ls lockset) {
 		}
 		w.expr(t.X, ls)
 	case *ast.IndexExpr:
+		if id, ok := t.X.(*ast.Ident); ok {
+			if f, ok := w.alias[id.Name]; ok {
+				w.record(f, true, false, ls, t.Pos())
+				w.expr(t.Index, ls)
+				return
+			}
+		}
 		if f, ok := w.recvField(t.X); ok {
 			if sel, ok := t.X.(*ast.SelectorExpr); ok {
 				if id, ok := sel.X.(*ast.Ident); ok && id.Name == w.recv {
@@ -370,7 +441,17 @@ func (w *walker) stmt(s ast.Stmt, ls lockset) lockset {
 		for _, r := range t.Rhs {
 			w.expr(r, ls)
 		}
-		for _, l := range t.Lhs {
+		for i, l := range t.Lhs {
+			// `x := recv.f` with f a map: x aliases the shared map; later uses of x are uses of f
+			if id, ok := l.(*ast.Ident); ok && len(t.Lhs) == len(t.Rhs) {
+				if sel, ok := t.Rhs[i].(*ast.SelectorExpr); ok {
+					if rid, ok := sel.X.(*ast.Ident); ok && rid.Name == w.recv && w.mapFlds[sel.Sel.Name] {
+						w.alias[id.Name] = sel.Sel.Name
+						continue
+					}
+				}
+				delete(w.alias, id.Name)
+			}
 			w.lhs(l, ls)
 		}
 	case *ast.IncDecStmt:
@@ -460,6 +541,10 @@ func (w *walker) stmt(s ast.Stmt, ls lockset) lockset {
 		} else {
 			after := ls.clone()
 			if tryMu != "" {
+				if after.nLocks() == 0 {
+					w.nextRegion++
+					after.setRegion(w.nextRegion)
+				}
 				after[tryMu] = true
 			}
 			paths = append(paths, after)
@@ -545,9 +630,10 @@ func (w *walker) deferredBody(b *ast.BlockStmt, ls lockset) {
 }
 
 type structInfo struct {
-	fields  map[string]bool
-	mutexes map[string]bool
-	embeds  []string
+	fields    map[string]bool
+	mutexes   map[string]bool
+	mapFields map[string]bool // fields of map type: a local alias of them shares the mutable contents
+	embeds    []string
 }
 
 func collectStruct(files []*ast.File, name string) *structInfo {
@@ -563,7 +649,7 @@ func collectStruct(files []*ast.File, name string) *structInfo {
 				if !ok || ts.Name.Name != name {
 					continue
 				}
-				si := &structInfo{fields: map[string]bool{}, mutexes: map[string]bool{}}
+				si := &structInfo{fields: map[string]bool{}, mutexes: map[string]bool{}, mapFields: map[string]bool{}}
 				for _, fld := range st.Fields.List {
 					if len(fld.Names) == 0 {
 						si.embeds = append(si.embeds, baseTypeName(fld.Type))
@@ -577,6 +663,9 @@ func collectStruct(files []*ast.File, name string) *structInfo {
 							si.mutexes[n.Name] = true
 						} else {
 							si.fields[n.Name] = true
+							if _, ok := fld.Type.(*ast.MapType); ok {
+								si.mapFields[n.Name] = true
+							}
 						}
 					}
 				}
@@ -615,6 +704,9 @@ func Extract(repo string, t Target) ([]Access, error) {
 		if es := collectStruct(files, emb); es != nil {
 			for f := range es.fields {
 				si.fields[f] = true
+			}
+			for f := range es.mapFields {
+				si.mapFields[f] = true
 			}
 			for m := range es.mutexes {
 				si.mutexes[m] = true
@@ -672,7 +764,8 @@ func Extract(repo string, t Target) ([]Access, error) {
 			}
 			mi := &methodInfo{name: fd.Name.Name, exported: fd.Name.IsExported()}
 			var subs []*methodInfo
-			w := &walker{recv: recvName, fields: si.fields, mutexes: si.mutexes, m: mi, subs: &subs}
+			w := &walker{recv: recvName, fields: si.fields, mutexes: si.mutexes, m: mi, subs: &subs,
+				mapFlds: si.mapFields, alias: map[string]string{}}
 			w.block(fd.Body, lockset{})
 			methods[mi.name] = mi
 			for _, sub := range subs {
@@ -781,6 +874,38 @@ func Extract(repo string, t Target) ([]Access, error) {
 			break
 		}
 	}
+	// call-through accesses: a call recv.c() inside method m makes c's direct accesses part of m's
+	// behaviour; they get the locks of c's own access plus the call site's, and — when the call site
+	// holds no lock — a critical-section number of their own (1000+i): c locks for itself.
+	type extra struct {
+		a   rawAccess
+		via string
+	}
+	extras := map[string][]extra{}
+	for _, mi := range methods {
+		for i, c := range mi.calls {
+			callee, ok := methods[c.callee]
+			if !ok || callee == mi {
+				continue
+			}
+			for _, ca := range callee.accesses {
+				ls := ca.locks.clone()
+				for k, v := range c.locks {
+					if !strings.HasPrefix(k, "\x00") {
+						if _, has := ls[k]; !has {
+							ls[k] = v
+						}
+					}
+				}
+				if c.locks.nLocks() > 0 {
+					ls.setRegion(c.locks.region())
+				} else {
+					ls.setRegion(1000 + i)
+				}
+				extras[mi.name] = append(extras[mi.name], extra{rawAccess{ca.field, ca.write, ca.atomic, ls, ca.pos, false}, c.callee})
+			}
+		}
+	}
 	var out []Access
 	names := make([]string, 0, len(methods))
 	for n := range methods {
@@ -806,7 +931,22 @@ func Extract(repo string, t Target) ([]Access, error) {
 			p := fset.Position(a.pos)
 			out = append(out, Access{
 				Struct: t.Pkg + "." + t.Type, Field: a.field, Func: n, Write: a.write, Locks: eff.list(),
-				Atomic: a.atomic, Init: initSet[n],
+				Atomic: a.atomic, Init: initSet[n], Region: a.locks.region(),
+				Pos: fmt.Sprintf("%s:%d", filepath.Join(t.Dir, filepath.Base(p.Filename)), p.Line),
+			})
+		}
+		for _, e := range extras[n] {
+			a := e.a
+			eff := a.locks.clone()
+			for k, v := range inh {
+				if _, ok := eff[k]; !ok {
+					eff[k] = v
+				}
+			}
+			p := fset.Position(a.pos)
+			out = append(out, Access{
+				Struct: t.Pkg + "." + t.Type, Field: a.field, Func: n, Write: a.write, Locks: eff.list(),
+				Atomic: a.atomic, Init: initSet[n], Region: a.locks.region(), Via: e.via,
 				Pos: fmt.Sprintf("%s:%d", filepath.Join(t.Dir, filepath.Base(p.Filename)), p.Line),
 			})
 		}
